@@ -180,6 +180,12 @@ def run_event(w, ds, conv, e: dict) -> dict:
                 with warnings.catch_warnings():
                     warnings.simplefilter("ignore")
                     idx = conv.unravel_index(e["n"], kind_enum(e["kind"]))
+            elif e.get("api") == "via_ravel_narrow":
+                # the native index held as narrow numpy integers (a station table stored as bytes) is turned into a linear
+                # position and back before it is used
+                idx = conv.wind_index(e["n"], grid_kind=kind_enum(e["kind"]))
+                narrow = tuple(numpy.int8(v) if isinstance(v, (int, numpy.integer)) and not isinstance(v, bool) and -128 <= int(v) < 128 else v for v in idx)
+                idx = conv.wind_index(conv.ravel_index(narrow), grid_kind=kind_enum(e["kind"]))
             else:
                 idx = conv.wind_index(e["n"], grid_kind=kind_enum(e["kind"]))
             return {"vars": proj_dataset(conv.select_index(idx))}
@@ -419,6 +425,12 @@ def execute_cells(case: dict) -> dict:
         mutated = {v["name"] for v in w.get("vars", [])} if any(e["a"] == "Mutate" for e in case["events"]) else set()
         before = snapshot(ds, mutated)
         conv = W.bind(w, ds)
+        for attr in w.get("touch_first", []):
+            # the user looked at the extent of the dataset before asking anything else (these are not questions of the trace)
+            try:
+                getattr(conv, attr)
+            except Exception:
+                pass
         rec = {"tid": case["tid"], "src": case["src"], "w": tlc_world(w, ds), "events": []}
         rec["w"]["via"] = w.get("via", "memory") + ("+bounds-as-coords" if w.get("bounds_as_coords") else "")
         second = None
